@@ -331,7 +331,11 @@ package client
 //@ ensures [C12:logclose] calls(CE) == 1 && arg(CE,0,0) == pw && arg(CE,0,1) == err
 //@ assigns \opaque
 
+// "The Content-Type header describes what was sent": mangleContentType is only called on the
+// branch of buildHTTP that sends a multipart document, so whatever media type the operation
+// chose, the header has to announce multipart/form-data with the writer's boundary.
 //@ func mangleContentType
+//@ ensures [C11:describes] result == "multipart/form-data; boundary=" + boundary
 //@ assigns \nothing
 
 // The goroutine that writes the multipart document into the pipe. One part is created
